@@ -19,7 +19,8 @@
 EXTENDS Integers, Sequences, FiniteSets, TLC
 
 CONSTANTS Nodes, Root, MoveIds, Moves, Child, Static, Status, Key, History,
-          Workers, MaxIter, MinPar, Orders, K, LoopChecksFlag, AssertLine, StopAllowed
+          Workers, MaxIter, MinPar, Orders, K, LoopChecksFlag, AssertLine, StopAllowed,
+          CapOrder   \* CapOrder[n]: the capturing moves of n in the order the quiescence search tries them (<<>> = quiet)
 \* Moves[n] \subseteq MoveIds ; Child[n][m] \in Nodes ; Static[n] \in Int (side to move's view)
 \* Status[n] \in {"open","mate","stale"} ; Key[n] : table key ; Orders[n] : set of sequences (move orders)
 
@@ -47,8 +48,20 @@ Max(a, b) == IF a >= b THEN a ELSE b
 Min(a, b) == IF a <= b THEN a ELSE b
 
 TerminalScore(n, ply) == IF Status[n] = "mate" THEN -Mate(ply) ELSE 0
-\* quiescence abstracted: terminal score or static evaluation
-Quiesce(n, ply) == IF Status[n] # "open" THEN TerminalScore(n, ply) ELSE Static[n]
+\* Quiescence search as in the code: no table, no history, no cancellation; stand-pat on the static score,
+\* captures only, fail-hard.  (Capture sequences are finite: CapOrder must be acyclic.)
+RECURSIVE QS(_, _, _, _)
+RECURSIVE QSLoop(_, _, _, _, _)
+QS(n, ply, a, b) ==
+  IF Moves[n] = {} THEN TerminalScore(n, ply)
+  ELSE IF CapOrder[n] = <<>> THEN Static[n]
+  ELSE IF Static[n] >= b THEN b
+  ELSE QSLoop(n, ply, Max(a, Static[n]), b, CapOrder[n])
+QSLoop(n, ply, a, b, todo) ==
+  IF todo = <<>> THEN a
+  ELSE LET v == 0 - QS(Child[n][Head(todo)], ply + 1, 0 - b, 0 - a) IN
+       IF v >= b THEN b ELSE QSLoop(n, ply, Max(a, v), b, Tail(todo))
+Quiesce(n, ply, a, b) == QS(n, ply, a, b)
 
 Frame(n, a, b, cur, mx) == [n |-> n, a |-> a, b |-> b, cur |-> cur, mx |-> mx,
                             todo |-> <<>>, cm |-> NoMove, best |-> NoMove, kind |-> "U", any |-> FALSE, ph |-> "enter"]
@@ -91,7 +104,7 @@ Probe(w) ==
            r == IF f.cur > 0 /\ k \in History THEN Deliver(Pop(s), 0)
                 ELSE IF hit /\ e.kind = "E" THEN Deliver(Pop(s), e.eval)
                 ELSE IF hit /\ a1 >= b1 THEN Deliver(Pop(s), e.eval)
-                ELSE IF f.cur >= f.mx THEN Deliver(Pop(s), Quiesce(f.n, f.cur))
+                ELSE IF f.cur >= f.mx THEN Deliver(Pop(s), Quiesce(f.n, f.cur, a1, b1))
                 ELSE Advance(SetTop(s, [f EXCEPT !.a = a1, !.b = b1, !.todo = ord, !.ph = "loop", !.cm = NoMove]))
            interrupted == (cnt[w] + 1) % K = 0 /\ cancel /\ iter > 0      \* iteration 0 runs under a token that is never cancelled
        IN /\ stk' = [stk EXCEPT ![w] = IF interrupted THEN <<>> ELSE r.s]
